@@ -96,6 +96,11 @@ func (c *Enum) Append(i EnumItem) int {
 	return idx
 }
 
+// Len returns the number of items.
+func (c *Enum) Len() int {
+	return len(c.items)
+}
+
 func (c *Enum) SetComment(idx int, comment string) {
 	c.items[idx].comment = comment
 }
